@@ -9,7 +9,9 @@ DOCS = [("plain", [" x"]), ("two-lines", [" first", " second"]), ("empty-line-be
         ("block-with-blank-line", ["a\n\nb"]), ("block-newline-only", ["\n"]), ("long", [" " + "0123456789" * 30]),
         ("block-with-stars", ["\n * first\n * second\n "]), ("block-no-stars", ["\n first\n second\n"]), ("block-terminator", ["\n ends */ early\n"]),
         ("line-comment", [" // not a comment"]), ("template", [" `${x}`"]), ("import-words", [" import type { A } from \"./A\";"]),
-        ("blank-then-export", [" a", "", " export type Q = 1;"])]
+        ("blank-then-export", [" a", "", " export type Q = 1;"]),
+        ("leading-slash", ["/etc/passwd is read"]), ("leading-slash-multiline", ["/ x\ny"]), ("second-line-leading-slash", [" a", "/b"]),
+        ("object-intersection-words", [" has { a } & { b } inside"]), ("trailing-star", [" ends with *"]), ("only-slash", ["/"])]
 
 
 def doc_attrs(texts):
@@ -23,7 +25,7 @@ def build(tier):
         tx = ", ".join(rs(t) for t in texts)
 
         def case(pos, position_arg, mid, plain):
-            body = [f'ctx.c15_docs::<Mid, Plain>("Mid", {rs(position_arg)}, &[{tx}]);']
+            body = [f'ctx.c15_docs::<Mid, Plain>("Mid", {rs(position_arg)}, &[{tx}]);', 'if ctx.prop == "C04" { ctx.c04::<Mid>("Mid"); }']
             out.append(Case({"family": "docs-in-files", "position": pos, "doc_kind": kind}, [mid, plain], body))
 
         def pair(mk):
